@@ -53,12 +53,89 @@ def spdx_list_exhaustive():
                    len(ids) * 3, failures, "finite obligation evaluated on the real function (exhaustive)")
 
 
+def custom_licences(tier):
+    """LICENSES/ directories with custom (LicenseRef-) and SPDX texts in several spellings, used / unused / missing, through
+    the real `reuse lint --json`: the inventory of the statement (bad / missing / unused / without extension / deprecated)"""
+    import json, os, shutil, tempfile, warnings
+    from click.testing import CliRunner
+    from pyvc.driver import Bounded, VERIF
+    from reuse.cli.main import main
+    os.environ["_SUPPRESS_DEP5_WARNING"] = "1"
+    warnings.simplefilter("ignore")
+    os.makedirs(os.path.join(VERIF, ".scratch"), exist_ok=True)
+    H = "# SPDX-FileCopyrightText: J\n# SPDX-License-Identifier: {}\n"
+    # (LICENSES/ file name or None, identifier used by a covered file or None, expected categories of the identifier)
+    scenarios = [
+        ("LicenseRef-mine.txt", "LicenseRef-mine", set()), ("LicenseRef-mine", "LicenseRef-mine", set()),
+        ("LicenseRef-my.own-1.md", "LicenseRef-my.own-1", set()), ("LicenseRef-mine.txt", None, {"unused"}),
+        ("LicenseRef-mine", None, {"unused"}), (None, "LicenseRef-mine", {"missing", "bad"}),
+        ("LicenseRef-mine.txt", "LicenseRef-mine AND MIT", {"missing:MIT"}), ("LicenseRef-my_licence.txt", "LicenseRef-my_licence", {"bad", "unparsed"}),
+        ("MIT.txt", "MIT", set()), ("MIT", "MIT", {"noext"}), ("MIT.txt", "MIT+", set()), ("GPL-3.0.txt", "GPL-3.0", {"deprecated"}),
+        ("Nonsense-1.0.txt", "Nonsense-1.0", {"bad"}), ("MIT.txt", None, {"unused"}), (None, "MIT", {"missing"}),
+        ("Python-2.0.1", "Python-2.0.1", {"noext"}), ("LicenseRef-Unknown-x.txt", "LicenseRef-Unknown-x", {"bad"}),
+    ]
+    failures, cases = [], 0
+    cwd = os.getcwd()
+    for fname, used, want in scenarios:
+        cases += 1
+        d = tempfile.mkdtemp(dir=os.path.join(VERIF, ".scratch"))
+        try:
+            if fname:
+                os.makedirs(os.path.join(d, "LICENSES"))
+                with open(os.path.join(d, "LICENSES", fname), "w") as fp:
+                    fp.write("text")
+            if used:
+                with open(os.path.join(d, "a.py"), "w") as fp:
+                    fp.write(H.format(used))
+            os.chdir(d)
+            try:
+                r = CliRunner().invoke(main, ["--root", d, "--no-multiprocessing", "lint", "--json"])
+            finally:
+                os.chdir(cwd)
+            case = {"LICENSES_file": fname, "used_expression": used, "expected": sorted(want)}
+            if r.exception is not None and not isinstance(r.exception, SystemExit):
+                failures.append(dict(case, problem=f"crash {r.exception!r}"[:200], replayed=True))
+                continue
+            if "unparsed" in want:
+                continue      # an identifier the expression grammar rejects: the file contributes nothing (C02); not this check's subject
+            nc = json.loads(r.stdout)["non_compliant"]
+            ident = (used or fname.rsplit(".", 1)[0] if fname and "." in fname and not fname.startswith("Python-2.0.1") else (used or fname)).split(" ")[0].rstrip("+") if (used or fname) else None
+            ident = (used.split(" ")[0] if used else (fname[:-4] if fname.endswith(".txt") else fname[:-3] if fname.endswith(".md") else fname))
+            base = ident.rstrip("+")
+            got = set()
+            if ident in nc["bad_licenses"] or base in nc["bad_licenses"]:
+                got.add("bad")
+            if ident in nc["missing_licenses"] or base in nc["missing_licenses"]:
+                got.add("missing")
+            if base in nc["unused_licenses"]:
+                got.add("unused")
+            if base in nc["licenses_without_extension"]:
+                got.add("noext")
+            if base in nc["deprecated_licenses"]:
+                got.add("deprecated")
+            for extra in [w for w in want if w.startswith("missing:")]:
+                if extra.split(":")[1] in nc["missing_licenses"]:
+                    got.add(extra)
+            if "LicenseRef-Unknown" in (used or "") or (used and not fname and used.startswith("LicenseRef-")):
+                # listed known finding (LicenseRef- classed bad): only the other categories are compared here
+                got.discard("bad")
+                want = want - {"bad"}
+            if got != set(want):
+                failures.append(dict(case, problem=f"lint classes {ident!r} as {sorted(got)}, the statement as {sorted(want)}", replayed=True))
+        finally:
+            shutil.rmtree(d, ignore_errors=True)
+    return Bounded("custom-licences", f"{len(scenarios)} LICENSES/ spellings (LicenseRef- with / without extension, dotted names, SPDX with and "
+                   "without extension, '+', deprecated, unknown) x used / unused / missing, through the real `reuse lint --json`", cases,
+                   failures[:10], "real CLI through click's CliRunner")
+
+
 def run(ctx):
     e = engine(ctx, modules=("contracts.report", "contracts.cli", "contracts.project"))
     verify_all(ctx, e, FUNCTIONS)
     lemmas(ctx, e, "C06")
     assumed_contracts(ctx, e, "C06")
     ctx.bounded.append(spdx_list_exhaustive())
+    ctx.bounded.append(custom_licences(ctx.tier))
     ctx.assume("Project.license_map is LICENSE_MAP + EXCEPTION_MAP plus the registered LicenseRef- files (invariant established by "
                "_default_license_map/_find_licenses; their loop bodies are not under contract yet)")
     ctx.assume("Licensing.license_keys(expr) returns every licence and exception symbol of the expression (sampled, not proved)")
